@@ -568,6 +568,36 @@ func (s *Store) bin(op Op, x, y *Term) *Term {
 			return BV(uint64(sa>>b), w)
 		}
 	}
+	// division and remainder by a constant power of two: shifts and masks
+	// (bit-blasted dividers are what makes solvers slow here)
+	if y.IsConst() && y.c != 0 && y.c&(y.c-1) == 0 && y.c < uint64(1)<<uint(w-1) {
+		k := uint64(0)
+		for uint64(1)<<k != y.c {
+			k++
+		}
+		lowMask := BV(y.c-1, w)
+		switch op {
+		case OpUDiv:
+			return s.bin(OpLShr, x, BV(k, w))
+		case OpURem:
+			return s.bin(OpAnd, x, lowMask)
+		case OpSRem:
+			// sign of the dividend: low bits, made negative when x < 0 and they are not zero
+			if k == 0 {
+				return BV(0, w)
+			}
+			low := s.bin(OpAnd, x, lowMask)
+			neg := s.And(s.SLt(x, BV(0, w)), s.Not(s.Eq(low, BV(0, w))))
+			return s.Ite(neg, s.bin(OpOr, low, BV(m&^(y.c-1), w)), low)
+		case OpSDiv:
+			// round towards zero: add 2^k-1 to a negative dividend first
+			if k == 0 {
+				return x
+			}
+			adj := s.Ite(s.SLt(x, BV(0, w)), lowMask, BV(0, w))
+			return s.bin(OpAShr, s.bin(OpAdd, x, adj), BV(k, w))
+		}
+	}
 	// identities
 	switch op {
 	case OpAdd, OpOr, OpXor:
